@@ -190,4 +190,13 @@ var props = map[string]*propCfg{
 		Stub: []string{"Mesos master, agents, executors and tasks: simmesos behind the calls.Caller seam (verif hook SetCallerForVerif)", "Consul: simconsul (http.RoundTripper)", "Kafka: capturing event writers", "gRPC transport: RPC methods are called directly on the RpcServer object (verif hook)", "metrics HTTP server: disabled (port -1)"},
 		Assumptions: append([]string{"simmesos validates an ACCEPT the way a Mesos master does (documented behaviour); the code's numeric port thresholds are not part of the oracle", "violations are confirmed by replay in a fresh process; tapes of this harness are not shrunk"}, commonAssumptions...),
 	},
+	"C15": {
+		Harness: "hload", Level: "exploration",
+		QuickRuns: 2400, QuickBudgetS: 100, ThoroughRuns: 300000, ThoroughBudgetS: 1500,
+		WatchdogSlackS: 180, DetSeedsQuick: 10, DetSeedsThorough: 100,
+		Rule: "one run = a generated workflow template (1-3 top roles, depth <= 3, aggregators, tasks, calls, iterators over two list variables incl. an empty one, enabled = false / flag variable / expression over an iteration variable, variables referring to a root default, optionally one broken template expression) processed by the real ProcessTemplates once sequentially and 1-4 more times under drawn settings of the three concurrency switches, every load under a seeded schedule of the template goroutines (R4 race points on captured variables); oracles: loaded tree = independent reference expansion (paths in order), variables equal across loads, a reached template error fails every load; non-trivial = more than one role expected; distinct = distinct (scenario, interleaving)",
+		Real:    []string{"core/workflow: aggregatorRole/iteratorRole/taskRole/callRole ProcessTemplates, expandTemplate, copies, pruning", "configuration/template (fields, stages, expression evaluation)", "common/gera maps"},
+		Stub:    []string{"repository: fake IRepo", "configuration service: apricot local over simconsul (empty)", "no sub-workflow includes"},
+		Assumptions: append([]string{"the reference expansion is written from the property statement for the generated template language subset (no includes)"}, commonAssumptions...),
+	},
 }
